@@ -23,8 +23,9 @@ ASSUMPTIONS = [
     "log / exp are uninterpreted: the identity sign * exp(logabs) == det is checked in the exponentiated form sign * prod a_j^c_j == det, which is "
     "equivalent because exp is injective and the arguments a_j of log are proved positive on the path",
     "non-singular inputs: every diagonal / pivot / scalar met in a denominator is assumed non-zero (domain events)",
-    "Lanczos / Arnoldi log algorithms need an eigensolver model for their small projected matrices: covered for Krylov dimension 1 (diagonal "
-    "operators probed by unit vectors); larger ones outside",
+    "Lanczos / Arnoldi log algorithms with the exact trace: operators blockdiag(P diag(w0, w1) P^-1, r_2, ..) of size 2 and 3 with a positive symbolic "
+    "spectrum (every unit vector has Krylov dimension <= 2; the projected matrices are served by the eigensolver stand-in); generic larger "
+    "projected matrices and stochastic traces are outside",
 ]
 
 
@@ -139,6 +140,75 @@ def case_psd(T, n, complex_, alg, wrap="dense"):
         check_slogdet(T, "slogdet()", A, Mfull, lambda: cola.linalg.slogdet(A))
 
 
+def krylov_block_operator(T, which, n, spectrum="any"):
+    """A = blockdiag(P diag(w0, w1) P^-1, r_2, ...) with a symbolic rotation P (Lanczos) or a fixed non-orthogonal P (Arnoldi) and a positive
+    symbolic spectrum.  Unit vectors e_0, e_1 have the 2-dimensional Krylov space of the leading block (projected matrices A_2 and J A_2 J, whose
+    eigendecompositions are given to the eigensolver stand-in), e_i, i >= 2, a 1-dimensional one (zero-padded projected matrix).
+    Returns (A as array, P, P^-1, w, rest)."""
+    dt = 'float64'
+    z, one = K.S(T, 0), K.S(T, 1)
+    w = [T.var("w0", positive=True), T.var("w1", positive=True)]
+    T.assume(w[0] >= 1e-3 * w[1])
+    T.assume(w[1] >= 1e-3 * w[0])
+    if which == "lanczos":
+        Pm = K.cayley2_symbolic(T, "p")
+        Pinv = Pm.T
+        T.assume(w[1] - w[0] >= 1e-3)
+    else:
+        from fractions import Fraction as Fr
+        Pm = K.mat(T, [[K.S(T, 1), K.S(T, -2)], [K.S(T, 1), K.S(T, 3)]], dt)
+        Pinv = K.mat(T, [[K.cst(T, Fr(3, 5)), K.cst(T, Fr(2, 5))], [K.cst(T, Fr(-1, 5)), K.cst(T, Fr(1, 5))]], dt)
+        T.assume(w[0] - w[1] >= 1e-3)
+    if spectrum == "small":
+        T.assume(w[0] <= 0.5)
+        T.assume(w[1] <= 0.5)
+    elif spectrum == "large":
+        T.assume(w[0] >= 2)
+        T.assume(w[1] >= 2)
+    A2 = Pm @ K.mat(T, [[w[0], z], [z, w[1]]], dt) @ Pinv
+    T.assume(A2[1, 0] >= 1e-2)
+    T.assume(A2[0, 1] >= 1e-2)
+    J = K.mat(T, [[z, one], [one, z]], dt)
+    rest = [T.var(f"r{i}", positive=True) for i in range(2, n)]
+    rows = [[z for _ in range(n)] for _ in range(n)]
+    for i in range(2):
+        for j in range(2):
+            rows[i][j] = _item(T, A2[i, j]) if T.sym else float(A2[i, j])
+    for i in range(2, n):
+        rows[i][i] = rest[i - 2]
+        # every eigenvalue well above the zero-padding mask of the Krylov matrix functions (relative to the largest of the same column)
+        T.assume(rest[i - 2] >= 1e-3)
+        if spectrum == "small":
+            T.assume(rest[i - 2] <= 0.5)
+    Am = K.mat(T, rows, dt)
+    if T.sym:
+        from symx import lapack
+        kind = "eigh" if which == "lanczos" else "eig"
+        wv = K.raw(T, K.mat(T, [w], dt))[0]
+        lapack.register(kind, K.raw(T, A2), (wv, K.raw(T, Pm)))
+        lapack.register(kind, K.raw(T, J @ A2 @ J), (wv, K.raw(T, J @ Pm)))
+    return Am, Pm, Pinv, w, rest
+
+
+def case_krylov_logdet(T, which, n, max_iters=None, logdet_too=False, spectrum="any"):
+    """slogdet(A, Lanczos() | Arnoldi(), Exact()) on `krylov_block_operator`: the exact trace probes log(A) with the unit vectors"""
+    Am, Pm, Pinv, w, rest = krylov_block_operator(T, which, n, spectrum)
+    from cola.linalg.decompositions.decompositions import Arnoldi, Lanczos
+    from cola.linalg.trace.diag_trace import Exact
+    alg = Lanczos(max_iters=max_iters or n, tol=1e-9) if which == "lanczos" else Arnoldi(max_iters=max_iters or n, tol=1e-9)
+    A = cola.PSD(cola.ops.Dense(Am)) if which == "lanczos" else cola.ops.Dense(Am)
+
+    def call():
+        s, l = cola.linalg.slogdet(A, alg, Exact())
+        if logdet_too:
+            T.eq("logdet==logabs", cola.linalg.logdet(A, alg, Exact()), l, dtype=False)
+        if T.sym:
+            from symx.array import W
+            return s, W(np.array(_item(T, l).real, dtype=object), 'float64') if _item(T, l).im.is_zero() else l
+        return s, l
+    check_slogdet(T, f"slogdet({which},Exact)", A, K.raw(T, Am), call)
+
+
 def _c(T, name):
     re, im = T.var(name + "_re"), T.var(name + "_im")
     if T.sym:
@@ -187,6 +257,10 @@ def cases(tier, seed):
             out.append((f"psd:n{n}{'c' if cx else ''}", case_psd, dict(n=n, complex_=cx, alg="default")))
             out.append((f"psd-chol:n{n}{'c' if cx else ''}", case_psd, dict(n=n, complex_=cx, alg="Cholesky")))
     out.append(("psd-kron:n2", case_psd, dict(n=2, complex_=False, alg="default", wrap="kron")))
+    for which in ("lanczos", "arnoldi"):
+        for n, m, sp in ((2, None, "any"), (2, None, "small"), (2, None, "large"), (3, None, "any"), (3, None, "small"), (2, 4, "small"), (3, 5, "any")):
+            out.append((f"krylov:{which}:n{n}" + (f"m{m}" if m else "") + f":{sp}", case_krylov_logdet,
+                        dict(which=which, n=n, max_iters=m, logdet_too=(n == 2 and not m), spectrum=sp), dict(abs_gen=False, max_paths=60)))
     return out
 
 
@@ -194,4 +268,5 @@ BOUNDS = dict(
     trees="Diagonal / ScalarMul / Identity / Triangular (lower, upper) of size 1..3, real and complex; 11 permutations of both parities (size <= 4); "
     "22 composites (Product of square factors, Kronecker with unequal factor sizes and 3 factors, BlockDiag with multiplicities, nestings, Sum, "
     "Transpose, Tridiagonal, generic); dense general n <= 3 through the pivoted-LU stand-in (every pivot order is a path); dense Hermitian positive "
-    "definite L L^H n <= 3 through Cholesky", algorithms="default (Auto), LU(), Cholesky(), logdet", values="all payloads symbolic")
+    "definite L L^H n <= 3 through Cholesky; Lanczos() / Arnoldi() with Exact() trace on block operators n in {2, 3}, max_iters n .. n + 2, spectra below one, "
+    "above one and mixed", algorithms="default (Auto), LU(), Cholesky(), Lanczos(), Arnoldi(), logdet", values="all payloads symbolic")
